@@ -231,3 +231,20 @@ Proof. exact tie_adjust_key_size. Qed.
    the threshold theorems above are therefore about the statements of the current source, for every key type, size, CA type and CA size *)
 Theorem c11_tie_hostkey_notes : forall name cert hs cat cs, size_notes name cert hs cat cs = src_hostkey_notes name cert hs cat cs.
 Proof. exact tie_hostkey_notes. Qed.
+(* ... and therefore the threshold and monotonicity statements hold of the rating block as it reads in the current source *)
+Theorem c11_src_rsa_thresholds_host : forall name s, mem name rsa_family = true -> 0 < s ->
+  src_hostkey_notes name false s "" 0 =
+  (if s <? 2048 then [note_small "" s] else [], if (2048 <=? s) && (s <? 3072) then [hk_two2k_warning] else []).
+Proof. exact src_rsa_thresholds_host. Qed.
+Theorem c11_src_rsa_thresholds_cert : forall name hs cat cs, rsa_cert_type name -> mem cat rsa_family = true -> 0 < hs -> 0 < cs ->
+  src_hostkey_notes name true hs cat cs =
+  ((if hs <? 2048 then [note_small "hostkey " hs] else []) ++ (if cs <? 2048 then [note_small "CA key " cs] else []),
+   if ((2048 <=? hs) && (hs <? 3072)) || ((2048 <=? cs) && (cs <? 3072)) then [hk_two2k_warning] else []).
+Proof. exact src_rsa_thresholds_cert. Qed.
+Theorem c11_src_rating_monotone_host : forall name s s', mem name rsa_family = true -> 0 < s -> s <= s' ->
+  severity (src_hostkey_notes name false s' "" 0) <= severity (src_hostkey_notes name false s "" 0).
+Proof. exact src_rating_monotone_host. Qed.
+Theorem c11_src_rating_monotone_cert : forall name cat hs hs' cs cs', rsa_cert_type name -> mem cat rsa_family = true ->
+  0 < hs -> hs <= hs' -> 0 < cs -> cs <= cs' ->
+  severity (src_hostkey_notes name true hs' cat cs') <= severity (src_hostkey_notes name true hs cat cs).
+Proof. exact src_rating_monotone_cert. Qed.
